@@ -54,46 +54,45 @@ def fmt_arguments(e, c, a):
 
 
 def _display(e, v):
+    """Display rendering as a list of byte Ints (symbolic string contents allowed); None when not renderable."""
     v = deref_all(e, v)
     if isinstance(v, Int):
         if not v.conc():
             return None
-        return str(v.sval()).encode() if True else None
+        return [Int(8, 0, b) for b in str(v.sval()).encode()]
     if isinstance(v, (VecObj, Slice)):
-        try:
-            return e.bytes_of(v)
-        except Unsupported:
-            return None
+        l, lo, hi = e.seq_of(v)
+        return list(l[lo:hi])
     if isinstance(v, bool):
-        return b"true" if v else b"false"
+        return [Int(8, 0, b) for b in (b"true" if v else b"false")]
     return None
 
 
 def render_format(e, fa):
-    """Best-effort rendering of a fmt::Arguments token; None when not concretely renderable."""
+    """Best-effort rendering of a fmt::Arguments token into byte Ints; None when not renderable."""
     if not isinstance(fa, Opaque) or fa.tag != "fmtargs":
         return None
     args = fa.data
     try:
         if len(args) == 1:
-            return e.bytes_of(args[0])
+            l, lo, hi = e.seq_of(args[0]); return list(l[lo:hi])
         tmpl = bytes(x.v for x in e.seq_of(args[0])[0])
         l, lo, hi = e.seq_of(args[1])
         argv = l[lo:hi]
     except Exception:
         return None
-    out = bytearray(); i = 0; ai = 0
+    out = []; i = 0; ai = 0
     while i < len(tmpl):
         b = tmpl[i]
         if b == 0:
             break
         if b < 0x80:
-            out += tmpl[i + 1:i + 1 + b]; i += 1 + b
+            out += [Int(8, 0, x) for x in tmpl[i + 1:i + 1 + b]]; i += 1 + b
         elif b == 0xC0:
             if ai >= len(argv) or not isinstance(argv[ai], Opaque):
                 return None
             kind, val = argv[ai].data
-            if kind not in ("display", "debug"):
+            if kind not in ("display",):
                 return None
             r = _display(e, val)
             if r is None:
@@ -101,7 +100,7 @@ def render_format(e, fa):
             out += r; ai += 1; i += 1
         else:
             return None
-    return bytes(out)
+    return out
 
 
 @model(r"^(std::fmt::|alloc::fmt::)?format$|^std::fmt::format$|^alloc::fmt::format$")
@@ -109,7 +108,7 @@ def fmt_format(e, c, a):
     r = render_format(e, a[0])
     if r is None:
         return Opaque("fmtstring")
-    return e.new_bytes(r, "String")
+    return VecObj(r, "String")
 
 
 @model(r"std::io::_eprint$|std::io::_print$|^std::io::stdio::_e?print$")
